@@ -489,19 +489,18 @@ func (uv *UtxoVM) SubBalance(addr []byte, delta *big.Int) {
 
 //获得一个账号的余额，inLock表示在调用此函数时已经对uv.mutex加过锁了
 func (uv *UtxoVM) GetBalance(addr string) (*big.Int, error) {
+	uv.mutexBalance.Lock()
 	cachedBalance, ok := uv.BalanceCache.Get(addr)
 	if ok {
 		uv.log.Debug("hit getbalance cache", "addr", addr)
-		uv.mutexBalance.Lock()
 		balanceCopy := big.NewInt(0).Set(cachedBalance.(*big.Int))
 		uv.mutexBalance.Unlock()
 		return balanceCopy, nil
 	}
-	addrPrefix := fmt.Sprintf("%s%s_", pb.UTXOTablePrefix, addr)
-	utxoTotal := big.NewInt(0)
-	uv.mutexBalance.Lock()
 	myBalanceView := uv.BalanceViewDirty[addr]
 	uv.mutexBalance.Unlock()
+	addrPrefix := fmt.Sprintf("%s%s_", pb.UTXOTablePrefix, addr)
+	utxoTotal := big.NewInt(0)
 	it := uv.ldb.NewIteratorWithPrefix([]byte(addrPrefix))
 	defer it.Release()
 	for it.Next() {
@@ -529,6 +528,14 @@ func (uv *UtxoVM) GetBalance(addr string) (*big.Int, error) {
 	}
 	balanceCopy := big.NewInt(0).Set(utxoTotal)
 	return balanceCopy, nil
+}
+
+// ClearBalanceCache 清空余额cache以及dirty标记, 和AddBalance/SubBalance/GetBalance使用同一把锁
+func (uv *UtxoVM) ClearBalanceCache() {
+	uv.mutexBalance.Lock()
+	defer uv.mutexBalance.Unlock()
+	uv.BalanceCache = cache.NewLRUCache(uv.CacheSize) //清空balanceCache
+	uv.BalanceViewDirty = map[string]int{}            //清空cache dirty flag表
 }
 
 // Close 关闭utxo vm, 目前主要是关闭leveldb
